@@ -182,14 +182,24 @@ def main():
     if os.path.exists(evfile):
         os.remove(evfile)
 
-    p = run_gosym(cfg, tier, outfile)
-    sys.stderr.write(p.stderr)
     problems = []
-    if p.returncode != 0 or not os.path.exists(outfile):
-        problems.append("gosym failed (exit %d): %s" % (p.returncode, p.stderr[-1500:]))
-        res = {"entries": [], "load_seconds": 0, "solver": []}
-    else:
-        res = json.load(open(outfile))
+    runs = cfg.get(tier, {}).get("runs") or [{}]
+    res = {"entries": [], "load_seconds": 0, "solver": []}
+    for ri, rcfg in enumerate(runs):
+        c2 = dict(cfg)
+        c2[tier] = dict(cfg.get(tier, {}), **rcfg)
+        if "entry" in rcfg:
+            c2["entry"] = rcfg["entry"]
+        of = outfile + ".%d" % ri
+        p = run_gosym(c2, tier, of)
+        sys.stderr.write(p.stderr)
+        if p.returncode != 0 or not os.path.exists(of):
+            problems.append("gosym failed (exit %d): %s" % (p.returncode, p.stderr[-1500:]))
+            continue
+        r1 = json.load(open(of))
+        res["entries"] += r1["entries"]
+        res["load_seconds"] += r1.get("load_seconds", 0)
+        res["solver"] = r1.get("solver")
 
     known_entries = cfg.get("known_entries", {})  # entry name -> finding key
     expected_ids = harness_ids(cfg, pid)
@@ -254,6 +264,8 @@ def main():
     for aid in sorted(expected_ids):
         if aid in reached_all:
             continue
+        if any(k.startswith(aid + ".") and v["checked"] > 0 for k, v in seen_ids.items()):
+            continue  # the literal is a prefix handed to a helper that appends the obligation name
         if aid not in seen_ids or seen_ids[aid]["checked"] == 0:
             # ids belonging to known-finding demo entries that are not registered are skipped
             problems.append("assertion %s was never reached (vacuous harness?)" % aid)
